@@ -68,7 +68,14 @@ func jobsFor(prop, tier string) []*Job {
 				add(&Job{Name: fmt.Sprintf("O3-idle/tpt=%d", t), Pkg: "ratelimit", Harness: "VerifC13Idle", Params: p("tpt", t), SkipInc: true, TimeoutS: 120, IncMs: 500, Bounds: b, Inductive: true})
 			}
 		}
+		shapesBd := "real limiter, rates {1/s burst 2} or {1/s burst 2, 3/min burst 3} chosen per request by the rate extractor (one job per pattern, all 4), 2 requests of one source with symbolic amounts 1..4 and gaps up to 4 s (symbolic seconds and nanosecond remainder), both map iteration orders inside TokenBucketSet.Consume (insertion order elsewhere; Update is order-checked by O4): oversize requests are errors without delay, others forwarded or 429 with delay, 1 s window bound across shape changes"
 		if prop == "C03" {
+			add(&Job{Name: "O4-update", Pkg: "ratelimit", Harness: "VerifC03Update", Params: p("tpt", 1), MapPermMax: 2, TimeoutS: 120, Inductive: true,
+				Bounds: "TokenBucketSet.Update from any set over periods {1s,1min} (each bucket present or not, arbitrary invariant-satisfying state, rate 1..1000 per period, burst <= 2^20) to any non-empty rate set over the same periods (each rate unchanged or changed, symbolic)"})
+			for sh := 0; sh < 4; sh++ {
+				add(&Job{Name: fmt.Sprintf("O5-limiter-shapes/k=2,shapes=%d", sh), Pkg: "ratelimit", Harness: "VerifC03Shapes", Grid: 1e9, Params: p("k", 2, "maxgap", 3, "t0span", 3, "shapes", sh), MapPermMax: 2, MapPermFns: []string{"TokenBucketSet).Consume"}, TimeoutS: 120,
+					Bounds: shapesBd})
+			}
 			k := 3
 			for _, rt := range [][2]int{{1, 5}, {2, 3}} {
 				add(&Job{Name: fmt.Sprintf("O3-windows/k=%d,rate=%d/s,burst=%d", k, rt[0], rt[1]), Pkg: "ratelimit", Harness: "VerifC03Windows", Grid: 1e9,
@@ -79,6 +86,10 @@ func jobsFor(prop, tier string) []*Job {
 		if prop == "C13" {
 			add(&Job{Name: "O5-twin/k=2", Pkg: "ratelimit", Harness: "VerifC13Twin", Params: p("k", 2), TimeoutS: 120,
 				Bounds: "two-rate set (2/s burst 3, 10/min burst 10) built through NewTokenBucketSet; 2 requests with symbolic amounts 1..4 and gaps up to 3 s, then a probe: a twin that never saw the rejected requests decides the probe identically"})
+			for sh := 0; sh < 4; sh++ {
+				add(&Job{Name: fmt.Sprintf("O6-limiter-oversize-and-shapes/k=2,shapes=%d", sh), Pkg: "ratelimit", Harness: "VerifC03Shapes", Grid: 1e9, Params: p("k", 2, "maxgap", 3, "t0span", 3, "shapes", sh), MapPermMax: 2, MapPermFns: []string{"TokenBucketSet).Consume"}, TimeoutS: 120,
+					Bounds: shapesBd})
+			}
 			add(&Job{Name: "O1O2O4-bucket/tpt=symbolic", Pkg: "ratelimit", Harness: "VerifC13Bucket", Params: p("tpt", 0), SkipInc: true, TimeoutS: 120, IncMs: 500, Inductive: true,
 				Bounds: fmt.Sprintf(bd, "symbolic in [1,2^36] ns/token")})
 			add(&Job{Name: "O1O4-set2", Pkg: "ratelimit", Harness: "VerifC13Set", Params: p("tpt", 0), SkipInc: true, TimeoutS: 120, IncMs: 500, MapPermMax: 2, Inductive: true,
@@ -274,7 +285,7 @@ func jobsFor(prop, tier string) []*Job {
 		}
 		add(&Job{Name: fmt.Sprintf("O2-metrics/k=%d", k), Pkg: "memmetrics", Harness: "VerifC18Metrics", Grid: 1e9, Params: p("k", k, "t0span", 40), TimeoutS: 120, MergeBlind: true,
 			Merge: map[string]bool{"(*github.com/vulcand/oxy/v2/memmetrics.RollingCounter).cleanup": true, "(*github.com/vulcand/oxy/v2/memmetrics.RollingCounter).incBucketValue": true},
-			Bounds: fmt.Sprintf("%d Record calls with codes chosen symbolically from {200,404,500,502,504} at one instant (symbolic within a window covering every bucket residue), then the ratios and Reset", k)})
+			Bounds: fmt.Sprintf("%d Record calls with symbolic status codes in [100,599] at one instant (symbolic within a window covering every bucket residue), then the ratios and Reset", k)})
 		add(&Job{Name: "O4-overlapping-completions", Pkg: "cbreaker", Harness: "VerifC18Overlap", TimeoutS: 60,
 			Bounds: "two concurrent requests from standby: the second runs to completion at any one lock boundary of the first (two-thread sequentialisation, one preemption, scheduling points = mutex acquire/release), symbolic clock movement, durations and condition outcomes: effects once per transition, one metrics reset per trip"})
 		for part := 0; part < 16; part++ {
